@@ -4,6 +4,7 @@ Require Import Verif.Proofs.LevelP Verif.Proofs.RegistryP.
 Require Import Verif.Corr.C01.
 Require Import Verif.Model.GoSem Verif.Model.LevelRef.
 Require Verif.Gen.LevelNames Verif.Proofs.GenLevelP.
+Require Verif.Gen.Registry Verif.Model.RegRef Verif.Proofs.GenRegP.
 
 (* ---- the source against the model: Level.String, Level.ShortTag and ParseLevel as they are in
    /repo now (translated on every run, Gen/LevelNames.v) compute the model's functions on the
@@ -28,6 +29,31 @@ Theorem C17_gen_parse_level : forall g s tr,
   end.
 Proof. exact GenLevelP.gen_parse_level. Qed.
 Print Assumptions C17_gen_parse_level.
+
+(* RegisterLevel as it is in /repo now (translated on every run, Gen/Registry.v; the options arrive as
+   the regPack fields after every opt ran; a Go map write overwrites an existing key, a write into a
+   missing row of shortTagMap panics) is the model's [register]: the outcome (ok / value in use / title
+   in use, read from the error text) and ALL seven tables afterwards.  The model appends where Go
+   overwrites, so the registry must be well formed: no table has a key outside allLevels and shortTagMap
+   has exactly the rows 0..5 (RegRef.reg_wf_b, boolean).  The tables of the source satisfy it and every
+   registration preserves it, so the theorem composes over any history of registrations.
+   mLevelUseErrorDevice (a map[Level]bool) is read by its key set. *)
+Theorem C17_gen_register : forall g v t o errm, RegRef.reg_wf_b g = true -> map fst errm = r_errdev g ->
+  RegRef.view_reg (Registry.register (r_all g) (r_l2s g) (r_s2l g) (r_tags g) (r_colors g) (r_as g) errm v t
+                     (o_tags o) (o_clr o) (o_bg o) (o_treat o) (o_err o))
+  = Some (snd (register g v t o), fst (register g v t o)).
+Proof. exact GenRegP.gen_register. Qed.
+Print Assumptions C17_gen_register.
+
+Theorem C17_reg_wf : RegRef.reg_wf_b init_registry = true
+  /\ (forall g v t o, RegRef.reg_wf_b g = true -> RegRef.reg_wf_b (fst (register g v t o)) = true)
+  /\ (forall cs, RegRef.reg_wf_b (reg_run init_registry cs) = true).
+Proof.
+  split; [exact GenRegP.init_reg_wf|]. split; [exact GenRegP.register_wf|].
+  intros cs. unfold reg_run. generalize GenRegP.init_reg_wf. generalize init_registry.
+  induction cs as [|c cs IH]; intros g H; [exact H|]. cbn [fold_left]. apply IH. apply GenRegP.register_wf. exact H.
+Qed.
+Print Assumptions C17_reg_wf.
 
 (* For every registry reachable from the tables of the source (init_registry is built from
    coq/Gen/Tables.v) by ANY list of RegisterLevel calls - arbitrary values, titles, options -
